@@ -845,7 +845,12 @@ class AnsiString:
                 elif len(optimized_codes_str) < len(codes_str):
                     codes_str = optimized_codes_str
             if idx == 0 and reset_start:
-                codes_str = ansi_sep.join([str(AnsiParam.RESET.value), codes_str])
+                if apply_to_out_str:
+                    codes_str = ansi_sep.join([str(AnsiParam.RESET.value), codes_str])
+                else:
+                    # Nothing else to apply here, but the reset that was asked for must still be written
+                    codes_str = str(AnsiParam.RESET.value)
+                    apply_to_out_str = True
             # Apply these settings
             if apply_to_out_str:
                 out_str += ansi_graphic_rendition_format.format(codes_str)
